@@ -236,12 +236,31 @@ func (c *C05) block(in *hub.Instance, ns *c05State, op engine.Op, st *engine.Ste
 		st.Violate("C05", "panic_in_"+p.Phase, panicSite(p)+": "+panicClass(p.Value), "block %v: %v", op, p.Value)
 		return
 	}
+	// "a malformed or malicious deposit or claim can at worst fail on its own": a block that carries nothing but
+	// deposit claims leaves no coins parked on the module's transit accounts (a deposit either takes effect as a
+	// whole - recipient credited or onward transfer scheduled - or not at all)
+	depositsOnly := len(op.S) > 0
+	for _, it := range op.S {
+		if !strings.HasPrefix(it, "dep_") && it != "empty" {
+			depositsOnly = false
+		}
+	}
+	transit := func() string {
+		return in.Bank.GetAllBalances(in.Ctx(), mhubtypes.TempAddress).String() + "|" + in.Bank.GetAllBalances(in.Ctx(), hub.ModuleAddr).String()
+	}
+	before := transit()
 	for _, it := range op.S {
 		c.item(in, ns, it, st)
 	}
 	if p := in.EndBlock(); p != nil {
 		st.Violate("C05", "panic_in_"+p.Phase, panicSite(p)+": "+panicClass(p.Value), "block %v: %v", op, p.Value)
 		return
+	}
+	if depositsOnly {
+		if after := transit(); after != before {
+			st.Violate("C05", "failed_deposit_left_partial_effects", "processExternalEvent", "block %v: transit account balances (temporary address | module account) went from %s to %s", op, before, after)
+		}
+		st.Count("deposit_only_blocks_checked", 1)
 	}
 	st.Count("blocks", 1)
 	st.Obs = fmt.Sprint(op.S)
